@@ -757,10 +757,10 @@ SnapViol(s, R) ==
     \* chunk that was transmitted exactly once (Karn) or from a heartbeat acknowledgement
     \cup (IF s.rto < 1000 \/ s.rto > (IF Cfg(e).rtomax > 0 THEN MaxI(Cfg(e).rtomax, 1000) ELSE 60000)
           THEN {V("C19_RtoBounds", <<e, s.rto>>)} ELSE {})
-    \cup (IF prev # NoSnap /\ s.srtt # prev.srtt
+    \cup (IF prev # NoSnap /\ (s.srtt # prev.srtt \/ s.rto # prev.rto)
              /\ ~(step.ev = "rx" /\ step.to = e /\ misc.nack.to = e
                   /\ (misc.nack.hb \/ \E t \in misc.nack.set : ch[e][t].ntx = 1))
-          THEN {V("C19_KarnSample", <<e, prev.srtt, s.srtt, step.ev>>)} ELSE {})
+          THEN {V("C19_KarnSample", <<e, prev.srtt, s.srtt, step.ev, prev.rto, s.rto>>)} ELSE {})
     \* C19: a gap or a duplicate is acknowledged at once
     \cup (IF dataHanded /\ Established(s) /\ s.st = "established" /\ (sawDup \/ sawGap) /\ sk = <<>>
           THEN {V("C19_AckImmediate", <<e, IF sawDup THEN "duplicate" ELSE "gap", s.rcum>>)} ELSE {})
@@ -910,6 +910,9 @@ TrApi ==
                [] E.op = "closestream" /\ E.ok -> [misc EXCEPT !.closedInc = Upd(@, <<E.ep, E.sid>>, Get(misc.incn, <<E.ep, E.sid>>, 0))]
                [] OTHER -> misc
   /\ viol' = viol \cup AckLate(E.t) \cup ApiViol(E)
+              \* C08: while the association still lives (the read loop runs: it may be shutting down) a stream that the peer
+              \* opened and that waits to be accepted is handed out -- closure is not reported ahead of its unread messages
+              \cup (IF E.op = "accept" /\ ~E.ok THEN {V("C08_AcceptBeforeClosure", <<E.ep, E.err, IF sn[E.ep] = NoSnap THEN "?" ELSE sn[E.ep].st>>)} ELSE {})
   /\ step' = (IF E.op \in {"shutdown-ret", "connect-ret", "close-ret", "abort-ret", "connect-call"} THEN step ELSE E)
   /\ l' = l + 1
   /\ UNCHANGED <<scen, cfg, msg, order, reads, ch, hi, pkt, rcvd, skipTo, ackCum, ackGap, arw, outst, lastSack, sackEv, sn, newData, rs, acc>>
